@@ -122,15 +122,18 @@ def _normalize_extra_values(results: Any) -> Any:
     """
     Normalize extra values.
     """
-    if isinstance(results[0], tuple):
-        lhs, op, rhs = results[0]
-        if isinstance(lhs, Variable) and lhs.value == "extra":
-            normalized_extra = canonicalize_name(rhs.value)
-            rhs = Value(normalized_extra)
-        elif isinstance(rhs, Variable) and rhs.value == "extra":
-            normalized_extra = canonicalize_name(lhs.value)
-            lhs = Value(normalized_extra)
-        results[0] = lhs, op, rhs
+    for index, item in enumerate(results):
+        if isinstance(item, list):
+            _normalize_extra_values(item)
+        elif isinstance(item, tuple):
+            lhs, op, rhs = item
+            if isinstance(lhs, Variable) and lhs.value == "extra":
+                if isinstance(rhs, Value):
+                    rhs = Value(canonicalize_name(rhs.value))
+            elif isinstance(rhs, Variable) and rhs.value == "extra":
+                if isinstance(lhs, Value):
+                    lhs = Value(canonicalize_name(lhs.value))
+            results[index] = lhs, op, rhs
     return results
 
 
